@@ -1118,7 +1118,7 @@ class RewritingContext:
             functions_by_uuid = {func.uuid: func for func in self._functions}
             sorted_blocks = sorted(
                 self._module.byte_blocks,
-                key=lambda b: (b.address or 0, b.size != 0),
+                key=lambda b: (b.address or 0, b.size != 0, b.size),
             )
 
             for func in self._function_insertions:
